@@ -1042,6 +1042,8 @@ def evaluate(case, native):
             return True, f'{what}: required {ap["required"]} (expected [Y]), unassigned {ap["unassigned"]} (expected [Z]) - the inserted job is accounted for more than once'
         if ap['available'] != (['v1'] if a == 0 else []):
             return True, f'{what}: the registry offers {ap["available"]}'
+        if native.get('early_unassigned') != ['Y', 'Z']:
+            return True, f'Solution made from the context before finalisation reports unassigned {native.get("early_unassigned")}, expected [Y, Z]: the pending job is accounted for zero times'
         if fin['required'] != [] or fin['unassigned'] != ['Y', 'Z']:
             return True, f'after finalisation: required {fin["required"]}, unassigned {fin["unassigned"]}; expected [] and [Y, Z]'
         if native['solution_unassigned'] != ['Y', 'Z'] or native['solution_routes'] != exp_routes:
